@@ -83,6 +83,8 @@ def check_ident(rec, backend, workdir=None):
 def _worker(args):
     rec, backend = args
     try:
+        if rec["role"] == "missing":
+            return check_ident_missing(rec, backend)
         return check_ident(rec, backend)
     except Exception as ex:  # noqa: BLE001
         import traceback
@@ -90,7 +92,52 @@ def _worker(args):
                 "problems": [{"kind": "harness", "message": traceback.format_exc()[-400:]}]}
 
 
+def check_ident_missing(rec, backend):
+    """The identifier names a parameter of component A that component B reads: B.to_ode() receives it as a missing
+    variable.  Either some stage refuses the name, or the split-off model computes what the renamed model computes."""
+    from . import gx
+    ident = rec["id"]
+    text = (f'parameters("A", {ident} = 2)\nstates("A", z = 1)\nexpressions("A")\ndz_dt = -z\n'
+            f'states("B", x = 1.5, y = 0.5)\nexpressions("B")\nw = {ident} * x + y\ndx_dt = w - x\ndy_dt = x * {ident}\n')
+    out = {"id": ident, "role": "missing", "backend": backend, "text": text, "outcome": None, "problems": []}
+    try:
+        ode = gx.load(text)
+        half = ode.get_component("B").to_ode()
+        mod = modelcase.make_mod(backend, half, ["explicit_euler"])
+    except Exception as ex:  # noqa: BLE001
+        out["outcome"] = f"rejected:{type(ex).__name__}"
+        return out
+    out["outcome"] = "generated"
+    try:
+        inp = rec["input"]
+        S = [0.0, 0.0]
+        S[mod.index("state", "x")] = qf(inp["s"])
+        S[mod.index("state", "y")] = qf(inp["y"])
+        miss = [qf(inp["p"])]
+        t, dt = qf(inp["t"]), qf(inp["dt"])
+        stats = {"compared": 0, "undefined": 0}
+        for fn, dtv, exp, key in (("rhs", None, rec["den"], lambda n: f"d{n}_dt"), ("explicit_euler", dt, rec["euler"], lambda n: n)):
+            try:
+                vals, _ = mod.call(fn, t, S, [], dtv, missing=miss)
+            except Exception as ex:  # noqa: BLE001
+                out["problems"].append({"kind": "runtime-error", "fn": fn, "message": f"{type(ex).__name__}: {ex}"[:200]})
+                continue
+            for n in ("x", "y"):
+                bad = []
+                modelcase._cmp(bad, stats, fn, n, vals[mod.index("state", n)], exp[key(n)], {})
+                for b in bad:
+                    out["problems"].append({"kind": "captured", "fn": fn, "name": n, "got": b["got"], "want": b["want"]})
+    except Exception as ex:  # noqa: BLE001
+        out["problems"].append({"kind": "runtime-error", "fn": "harness-sequence", "message": f"{type(ex).__name__}: {ex}"[:200]})
+    finally:
+        mod.close()
+    return out
+
+
 def replay(recs, backends=("numpy", "jax", "c"), nproc=16):
     jobs = [(r, b) for r in recs for b in backends]
+    # the state-role record of an identifier carries the expectations of the 2-state model: reuse it for the
+    # "missing variable" role (the identifier is then the PARAMETER p of that model)
+    jobs += [(dict(r, role="missing"), b) for r in recs if r["role"] == "param" for b in ("numpy", "c")]
     with cf.ProcessPoolExecutor(max_workers=nproc) as ex:
         return list(ex.map(_worker, jobs, chunksize=2))
